@@ -115,8 +115,11 @@ func (vm *VM) GetLocals(locals []Object) []Object {
 // Abort aborts the VM execution. It is safe to call this method from another
 // goroutine.
 func (vm *VM) Abort() {
+	verifSync(vm, "abort.begin")
 	vm.pool.abort()
+	verifSync(vm, "abort.pooldone")
 	vm.abort.Store(1)
+	verifSync(vm, "abort.end")
 }
 
 // Aborted reports whether VM is aborted. It is safe to call this method from
@@ -129,6 +132,8 @@ func (vm *VM) Aborted() bool {
 func (vm *VM) Run(globals Object, args ...Object) (Object, error) {
 	vm.mu.Lock()
 	defer vm.mu.Unlock()
+	verifSync(vm, "run.enter")
+	defer verifSync(vm, "run.exit")
 
 	if vm.bytecode == nil || vm.bytecode.Main == nil {
 		return nil, errors.New("invalid Bytecode")
@@ -136,6 +141,7 @@ func (vm *VM) Run(globals Object, args ...Object) (Object, error) {
 
 	vm.err = nil
 	vm.abort.Store(0)
+	verifSync(vm, "run.reset")
 	vm.initGlobals(globals)
 	vm.initLocals(args)
 	vm.initCurrentFrame()
@@ -185,6 +191,7 @@ func (vm *VM) run() (rerun bool) {
 func (vm *VM) loop() {
 VMLoop:
 	for vm.abort.Load() == 0 {
+		verifStep(vm)
 		vm.ip++
 		switch vm.curInsts[vm.ip] {
 		case OpConstant:
@@ -1601,9 +1608,11 @@ func (inv *Invoker) Invoke(args ...Object) (Object, error) {
 	if inv.child == nil {
 		inv.acquire(false)
 	}
+	verifSync(inv.child, "invoke.check")
 	if inv.child.Aborted() {
 		return Undefined, ErrVMAborted
 	}
+	verifSync(inv.child, "invoke.checked")
 	if inv.isCompiled {
 		return inv.child.Run(inv.vm.globals, args...)
 	}
@@ -1636,6 +1645,7 @@ func (v *vmPool) abort() {
 	defer v.mu.Unlock()
 
 	for vm := range v.vms {
+		verifSync(vm, "pool.abort.child")
 		vm.Abort()
 	}
 }
@@ -1669,6 +1679,7 @@ func (v *vmPool) _acquire(vm *VM, cf *CompiledFunction) *VM {
 		v.vms = make(map[*VM]struct{})
 	}
 	v.vms[vm] = struct{}{}
+	verifSync(vm, "pool.acquired")
 
 	return vm
 }
@@ -1681,6 +1692,7 @@ func (v *vmPool) _release(vm *VM) {
 	v.mu.Lock()
 	delete(v.vms, vm)
 	v.mu.Unlock()
+	verifSync(vm, "pool.released")
 
 	bc := vm.bytecode
 	*bc = Bytecode{}
